@@ -15,12 +15,14 @@ func init() {
 	register(&Check{
 		ID:  "C22",
 		Run: runC22,
-		Explanation: "Decides that the encrypting and decrypting siblings cover the same things: (R1) encryptDeepObject and decryptDeepObject handle the same string-bearing kinds {Dict, Array, StringLiteral, HexLiteral} (encrypt additionally StreamDict, whose dictionary the reader decrypts as a Dict), and every call site of either passes a value whose static type is a handled kind (a *StreamDict silently does nothing); (R2) encryptDict and decryptDict compare keys/values against the same constant set (signature /Contents exemption), so what one side skips the other skips too; (R3) AES padding: the decrypter's strip predicate on the last plaintext byte accepts every pad length the encrypter can emit — evaluated on the comparison's operator and constant for 1..16 (a '<16' test, which leaves a full padding block in place for block-aligned input, is rejected) — and the encrypter's full-block pad constant is 16; (R4) encryptBytes/decryptBytes and encryptStream/decryptStream choose between the per-object key (decryptKey) and the file key under the same revision test (same constants compared with r) and both sides call decryptKey. NOT decided: cipher correctness, key derivation (C24), permissions equality.",
+		Explanation: "Decides that the encrypting and decrypting siblings cover the same things: (R1) encryptDeepObject and decryptDeepObject handle the same string-bearing kinds {Dict, Array, StringLiteral, HexLiteral} (encrypt additionally StreamDict, whose dictionary the reader decrypts as a Dict), and every call site of either passes a value whose static type is a handled kind (a *StreamDict silently does nothing); (R2) encryptDict and decryptDict compare keys/values against the same constant set (signature /Contents exemption), so what one side skips the other skips too; (R3) AES padding: the decrypter's strip predicate on the last plaintext byte accepts every pad length the encrypter can emit — evaluated on the comparison's operator and constant for 1..16 (a '<16' test, which leaves a full padding block in place for block-aligned input, is rejected) — and the encrypter's full-block pad constant is 16; (R4) encryptBytes/decryptBytes and encryptStream/decryptStream choose between the per-object key (decryptKey) and the file key under the same revision test (same constants compared with r) and both sides call decryptKey. (R5) in the reader's saveDecodedStreamContent every path to the decoder or to a success return passes decryptStreamContent, the len(sd.Raw) == 0 edge, or exactly the writer's exemption (len(FilterPipeline) == 1 and FilterPipeline[0].Name == \"Crypt\"): a wider exemption leaves streams the writer encrypted as ciphertext; (R6) the generation column (%05d) of every cross-reference table line is a load of XRefTableEntry.Generation on every path — the reader derives the RC4/AES-128 object key from the xref generation, the writer from the entry's. NOT decided: cipher correctness, key derivation (C24), permissions equality.",
 		Rules: []string{
 			"C22.R1 TABLE siblings: kinds handled by encrypt/decryptDeepObject; call-site argument types",
 			"C22.R2 TABLE siblings: exemption constants of encryptDict/decryptDict",
 			"C22.R3 TABLE siblings: AES pad emitted vs pad stripped",
 			"C22.R4 TABLE siblings: key selection",
+			"C22.R6 flow: the generation column of cross-reference table lines is the entry's Generation (the reader's key input)",
+			"C22.R5 MPT: the reader decrypts a stream unless the writer's exact exemption holds (only filter is /Crypt) or it is empty",
 		},
 		Assumptions: []string{"crypto/aes, crypto/rc4 are inverse for equal keys"},
 		Technique:   "sibling cross-check by table extraction (type-switch cases, comparison constants/operators) and finite evaluation of the padding predicate",
@@ -84,6 +86,10 @@ func runC22(c *Ctx) {
 	r.MinInst["C22.R2"] = 1
 	r.MinInst["C22.R3"] = 2
 	r.MinInst["C22.R4"] = 2
+	r.MinInst["C22.R5"] = 3
+	checkReaderStreamExemptions(c)
+	r.MinInst["C22.R6"] = 2
+	checkXRefGeneration(c)
 	enc, dec := p.Func("pkg/pdfcpu.encryptDeepObject"), p.Func("pkg/pdfcpu.decryptDeepObject")
 	if enc == nil || dec == nil {
 		r.Bad("C22.R1", "pkg/pdfcpu.encryptDeepObject", "anchor", "", "UNRESOLVED-ANCHOR")
@@ -277,6 +283,157 @@ func runC22(c *Ctx) {
 			r.OK("C22.R4", pair[0], "key-selection", p.Pos(a.Pos()), "both sides test r against {"+strings.Join(ca, ", ")+"} and derive the per-object key with decryptKey", true)
 		} else {
 			r.Bad("C22.R4", pair[0], "key-selection", p.Pos(a.Pos()), pair[0]+" tests r against {"+strings.Join(ca, ", ")+"}, "+pair[1]+" against {"+strings.Join(cb, ", ")+"}: the two directions would use different keys for some revision")
+		}
+	}
+}
+
+// ---------------- C22.R5 (round 2 of seeding): the reader's stream decryption exemptions mirror the writer's ----------------
+//
+// The writer encrypts every stream except xref streams and streams whose *only* filter is /Crypt (C23.R1b). The reader must
+// decrypt exactly those it encrypted: in saveDecodedStreamContent every path to the decoder (DecodeWithLimit) or to a success
+// return passes decryptStreamContent, or the edge pair len(sd.FilterPipeline) == 1 ∧ FilterPipeline[0].Name == "Crypt", or the
+// len(sd.Raw) == 0 edge. A wider exemption ("/Crypt anywhere in the pipeline") leaves [/Crypt /FlateDecode] streams encrypted.
+func checkReaderStreamExemptions(c *Ctx) {
+	p, r := c.P, c.R
+	fid := "pkg/pdfcpu.saveDecodedStreamContent"
+	fn := p.Func(fid)
+	if fn == nil {
+		r.Bad("C22.R5", fid, "anchor", "", "UNRESOLVED-ANCHOR")
+		return
+	}
+	genE := map[Edge][]string{}
+	add := func(es []Edge, f string) {
+		for _, e := range es {
+			genE[e] = append(genE[e], f)
+		}
+	}
+	eachInstr(fn, func(_ *ssa.BasicBlock, _ int, i ssa.Instruction) {
+		switch x := i.(type) {
+		case *ssa.Call:
+			if _, ref := callRef(x); ref == "pkg/pdfcpu.decryptStreamContent" {
+				es, _ := successEdges(x)
+				add(es, "decrypted")
+			}
+		case *ssa.BinOp:
+			if x.Op != token.EQL && x.Op != token.NEQ {
+				return
+			}
+			eq := x.Op == token.EQL
+			if la := lenArgOf(x.X); la != nil {
+				if k, ok := constInt(x.Y); ok {
+					fp := fieldPath(la)
+					switch {
+					case strings.HasSuffix(fp, "FilterPipeline") && k == 1:
+						add(condEdges(x, eq), "single")
+					case strings.HasSuffix(fp, "Raw") && k == 0:
+						add(condEdges(x, eq), "empty")
+					}
+				}
+			}
+			if s, ok := constString(x.Y); ok && s == "Crypt" && strings.HasSuffix(fieldPath(x.X), "Name") {
+				add(condEdges(x, eq), "crypt")
+			}
+			if s, ok := constString(x.X); ok && s == "Crypt" && strings.HasSuffix(fieldPath(x.Y), "Name") {
+				add(condEdges(x, eq), "crypt")
+			}
+		}
+	})
+	ff := NewFactFlow(fn, nil, genE, nil, nil)
+	okAt := func(i ssa.Instruction) bool {
+		f, unreachable := ff.At(i)
+		return unreachable || f["decrypted"] || f["empty"] || (f["single"] && f["crypt"])
+	}
+	n := 0
+	eachInstr(fn, func(_ *ssa.BasicBlock, _ int, i ssa.Instruction) {
+		switch x := i.(type) {
+		case *ssa.Call:
+			if _, ref := callRef(x); strings.HasSuffix(ref, "StreamDict.DecodeWithLimit") {
+				n++
+				if okAt(i) {
+					r.OK("C22.R5", fid, fmt.Sprintf("decode#%d", n), p.Pos(x.Pos()), "the decoder runs only on decrypted (or exempt: single /Crypt filter, empty) stream data", true)
+				} else {
+					r.Bad("C22.R5", fid, fmt.Sprintf("decode#%d", n), p.Pos(x.Pos()), "the stream is decoded on a path that neither decrypted it nor established the writer's exemption (the only filter is /Crypt): streams the writer encrypted stay ciphertext")
+				}
+			}
+		case *ssa.Return:
+			if k, has := returnErrKind(x); has && k == errNonNil {
+				return
+			}
+			n++
+			if okAt(i) {
+				r.OK("C22.R5", fid, fmt.Sprintf("return#%d", n), posOrFn(p, x, fn), "success return only after decryption or under the writer's exemptions", true)
+			} else {
+				r.Bad("C22.R5", fid, fmt.Sprintf("return#%d", n), posOrFn(p, x, fn), "a success return is reachable without decryption and without the exact exemption the writer applies (len(FilterPipeline) == 1 and Name == \"Crypt\"), so reader and writer disagree on which streams are encrypted")
+			}
+		}
+	})
+	if n == 0 {
+		r.Bad("C22.R5", fid, "anchor", p.Pos(fn.Pos()), "UNRESOLVED-ANCHOR: no decode call / return found")
+	}
+}
+
+// ---------------- C22.R6 (round 2 of seeding): the generation written to the xref table is the object's generation ----------------
+//
+// RC4 and AES-128 derive the per-object key from (object number, generation). The writer encrypts with the entry's generation
+// and writes that generation into the object header; the reader decrypts with the generation it finds in the cross-reference
+// entry. Every value formatted into the generation column (%05d) of a cross-reference table line must therefore be a load of
+// XRefTableEntry.Generation on every path — a constant 0 for in-use entries makes objects with generation > 0 undecryptable.
+func checkXRefGeneration(c *Ctx) {
+	p, r := c.P, c.R
+	n := 0
+	for _, fn := range p.Funcs {
+		fid := FuncID(fn)
+		if !strings.HasPrefix(fid, "pkg/pdfcpu.") {
+			continue
+		}
+		fn := fn
+		eachInstr(fn, func(_ *ssa.BasicBlock, _ int, i ssa.Instruction) {
+			call, ok := i.(*ssa.Call)
+			if !ok {
+				return
+			}
+			if _, ref := callRef(call); ref != "fmt.Sprintf" {
+				return
+			}
+			format, ok := constString(call.Call.Args[0])
+			if !ok || !strings.Contains(format, "%010d %05d") {
+				return
+			}
+			elems := variadicElems(call)
+			if len(elems) < 2 {
+				return
+			}
+			n++
+			construct := fmt.Sprintf("xref line#%d generation", n)
+			var bad []string
+			for _, leaf := range valueLeaves(unwrapIface(elems[1])) {
+				if !strings.HasSuffix(fieldPath(unwrapIface(leaf)), "Generation") {
+					bad = append(bad, leaf.String())
+				}
+			}
+			if len(bad) == 0 {
+				r.OK("C22.R6", fid, construct, p.Pos(call.Pos()), "the generation column is the entry's Generation on every path", true)
+			} else {
+				r.Bad("C22.R6", fid, construct, p.Pos(call.Pos()), "the generation column of a cross-reference line can be "+strings.Join(bad, ", ")+" instead of the entry's Generation: the reader derives the RC4/AES-128 object key from the xref generation, so objects with generation > 0 no longer decrypt")
+			}
+		})
+	}
+	if n == 0 {
+		r.Bad("C22.R6", "pkg/pdfcpu", "anchor", "", "UNRESOLVED-ANCHOR: no cross-reference table line formatting found")
+	}
+}
+
+func unwrapIface(v ssa.Value) ssa.Value {
+	for {
+		switch x := v.(type) {
+		case *ssa.MakeInterface:
+			v = x.X
+		case *ssa.ChangeInterface:
+			v = x.X
+		case *ssa.Convert:
+			v = x.X
+		default:
+			return v
 		}
 	}
 }
